@@ -229,8 +229,8 @@ func init() {
 		if thorough {
 			stride = 1
 		}
-		return []CaseSet{genEveryEntry(r), genSingleField(r, stride)},
-			"every (message, field) entry of the compiled-in profile with its exact base type and size in both byte orders and four payloads, in a file type that hosts the message (the dump shows which struct field changed and to what); plus the single-field definition sweep; the tables themselves are regenerated by reflection and re-checked by the kernel (gen_wf); every (message, field number) shared with the newest bundled SDK workbook must designate the struct field of the workbook's name and type", true
+		return []CaseSet{genEveryEntry(r), genSingleField(r, stride), genEveryFieldAlone(r, "rt", fileKnobs{inDomain: true})},
+			"every (message, field) entry of the compiled-in profile with its exact base type and size in both byte orders and four payloads, in a file type that hosts the message (the dump shows which struct field changed and to what); plus the single-field definition sweep; every field of every hosted message set alone (arrays shorter than the profile length included) through Encode and Decode: no profile-driven access of the encoder may fail; the tables themselves are regenerated by reflection and re-checked by the kernel (gen_wf); every (message, field number) shared with the newest bundled SDK workbook must designate the struct field of the workbook's name and type", true
 	}
 	propPost["C15"] = func(res *RunResult) { postNoPanic(res); sdkAssignment(res); sdkSnapshot(res); constructorInvalids(res); containersKnown(res); entryKinds(res) }
 }
